@@ -395,6 +395,9 @@ class SymmetryTranslator:
                 else:
                     for t in [stm.weight, stm.priority, *stm.terms]:
                         global_vars.update(collect_ast(t, "Variable"))
+                # a variable of the element's tuple is visible outside the condition
+                for t in elem.terms:
+                    global_vars.update(collect_ast(t, "Variable"))
                 for symmetry_bundle in list(
                     self.largest_symmetric_group(condition, global_vars, list(elem.terms) + list(stm.body), True)
                 ):
